@@ -88,15 +88,16 @@ EncodeClaims(ok) ==
 
 AadSupported(o) == o.aad = Empty \/ HasAssertions(o.ver)
 
-\* a token is produced: only when every step succeeded; its nonce is fresh (C01, C16)
-Emit(wire, nonce) ==
+\* a token is produced: only when every step succeeded; the random fields it embeds (`fresh`:
+\* the nonce of a local token; empty for deterministic signatures) were never used before (C01, C16)
+Emit(wire, fresh) ==
   /\ op.kind = "seal" /\ op.fEnc /\ op.cEnc /\ ~op.failed
   /\ AadSupported(op)
-  /\ (op.purpose = "local" => nonce \notin used)
+  /\ fresh \cap used = {}
   /\ tokens' = tokens \cup {[ver |-> op.ver, purpose |-> op.purpose,
                              ukey |-> UnsealKeyOf(op.purpose, op.key),
                              claims |-> op.claims, footer |-> op.footer, aad |-> op.aad, wire |-> wire]}
-  /\ used' = IF op.purpose = "local" THEN used \cup {nonce} ELSE used
+  /\ used' = used \cup fresh
   /\ last' = [kind |-> "sealed", wire |-> wire]
   /\ op' = Idle
   /\ UNCHANGED <<pubOf, blobs>>
@@ -184,12 +185,12 @@ WrapBegin(wkind, ver, ktype, key, with) ==
             failed |-> FALSE, rngFailed |-> FALSE]
   /\ UNCHANGED <<pubOf, tokens, blobs, used, last>>
 
-WrapEmit(blob, nonce) ==
+WrapEmit(blob, fresh) ==
   /\ op.kind = "wrap" /\ ~op.failed
-  /\ nonce \notin used
+  /\ fresh \cap used = {}
   /\ blobs' = blobs \cup {[wkind |-> op.wkind, ver |-> op.ver, ktype |-> op.ktype, key |-> op.key,
                            with |-> op.with, blob |-> blob]}
-  /\ used' = used \cup {nonce}
+  /\ used' = used \cup fresh
   /\ last' = [kind |-> "wrapped", blob |-> blob]
   /\ op' = Idle
   /\ UNCHANGED <<pubOf, tokens>>
